@@ -22,7 +22,10 @@ EXPLANATION = (
     "FrameCompressor::new_with_matcher) is effectively public and the generic compress path reaches the same "
     "compress_block as the built-in matcher; the frame header advertises at least the window the matcher reports "
     "(shared with C14.layout.frame-header-writer); the explicit panic constructs reachable from compress() are exactly the "
-    "reviewed sites, each classified matcher-contract / API-misuse / level-unimplemented / arithmetic. "
+    "reviewed sites — including calls of value-partial std functions (ilog2, Vec::remove, drain, ...) — each classified "
+    "matcher-contract / API-misuse / level-unimplemented / arithmetic; Huffman coding of the literals is attempted only when "
+    "they contain two distinct byte values (F11); every CompressState field written on the compress_block path is "
+    "re-established when the block falls back to raw. "
     "Not decided: non-panic and round-trip for all matchers and parses (runtime values).")
 ASSUMPTIONS = ["a well-behaved matcher respects the documented contract (spaces <= 128 KiB, match length >= 3, literal runs tile the block)",
                "reasons in tables/c16.json are reviewed hand arguments"]
@@ -126,6 +129,13 @@ def freeze(ctx, cfgs):
     return out
 
 
+# whatever the matcher reports goes through the same entropy stages: writer/reader agreement of C12 and C13
+INCLUDES = [
+    ("c12", "C16.fse", None, 20),
+    ("c13", "C16.huffman", None, 30),
+]
+
+
 def run(ctx):
     crate = ctx.crate()
     # F3 — shared with C14
@@ -142,7 +152,8 @@ def run(ctx):
     ctx.floor("C16.table.seq-count", len(keep), 9, "sequence-count obligations")
     # F5 — shared with C02
     start = len(ctx.obs)
-    c02.run(ctx)
+    with ctx.entering("C02"):
+        c02.run(ctx)
     keep = []
     for o in ctx.obs[start:]:
         if o.rule == "C02.pair.huffman-commit":
